@@ -210,9 +210,24 @@ theorem atoi_showNat (n : Nat) (h : (n : Int) < two63) : atoi (showNat n) = .ok 
   simp only [decNat_showNat]
   rw [if_pos h]
 
+theorem map_ok {α β} (a : α) (f : α → β) (o : Outcome α) (h : o = .ok a) : o.map f = .ok (f a) := by
+  rw [h]; rfl
+
+theorem field_hit (n u : Nat) (hb : (n : Int) < two63) : field (some (showNat n)) u = .ok (n * u) := by
+  unfold field
+  exact map_ok n (· * u) _ (atoi_showNat n hb)
+
+theorem field_none (u : Nat) : field none u = .ok 0 := rfl
+
+theorem secField_some (s : Nat) (fs : List Char) (hb : (s : Int) < two63) :
+    secField (some (showNat s, fs)) = .ok (s * secNs + fracNs fs) := by
+  unfold secField
+  exact map_ok s (fun wn => wn * secNs + fracNs fs) _ (atoi_showNat s hb)
+
 theorem fracNs_nil : fracNs [] = 0 := by
   unfold fracNs decNat
-  simp
+  simp only [List.take_nil, List.length_nil, List.nil_append]
+  rw [Nat.ofDigitChars_replicate_zero]
 
 theorem secField_secText (s ns : Nat) (hs : s < 60) (hns : ns < 1000000000) :
     ∃ v, optSeconds (secText s ns) = (v, []) ∧ secField v = .ok (s * secNs + ns) := by
@@ -221,15 +236,16 @@ theorem secField_secText (s ns : Nat) (hs : s < 60) (hns : ns < 1000000000) :
     rcases secText_shape s ns h with ⟨h0, he⟩ | ⟨hp, he⟩
     · refine ⟨some (showNat s, []), ?_, ?_⟩
       · rw [he]; exact optSeconds_whole s
-      · simp [secField, atoi_showNat s hsb, fracNs_nil, Outcome.map, h0]
+      · rw [secField_some s [] hsb, fracNs_nil, h0]
     · refine ⟨some (showNat s, trimRightZeros (pad9 ns)), ?_, ?_⟩
       · rw [he]
         exact optSeconds_frac s _ (trim_digits _ (pad9_digits ns)) (trim_ne_nil_of_pos ns hp)
-      · simp [secField, atoi_showNat s hsb, fracNs_trim_pad9 ns hns, Outcome.map]
+      · rw [secField_some s _ hsb, fracNs_trim_pad9 ns hns]
   · refine ⟨none, ?_, ?_⟩
     · unfold secText; rw [if_neg h]; exact optSeconds_nil
     · have : s = 0 ∧ ns = 0 := by omega
-      simp [secField, this.1, this.2]
+      rw [this.1, this.2]
+      rfl
 
 theorem optField_M_minsec (m s ns : Nat) :
     ∃ v, optField 'M' (minText m ++ secText s ns) = (v, secText s ns) ∧
@@ -242,13 +258,14 @@ theorem optField_M_minsec (m s ns : Nat) :
       simpa [List.append_assoc] using this
     · intro hlt
       have hb : ((m : Nat) : Int) < two63 := by unfold two63; omega
-      simp [field, atoi_showNat m hb, Outcome.map]
+      exact field_hit m minNs hb
   · rw [if_neg hm]
     refine ⟨none, ?_, ?_⟩
     · simpa using optField_secText 'M' (by decide) (by decide) s ns
     · intro _
       have : m = 0 := by omega
-      simp [field, this]
+      rw [this, Nat.zero_mul]
+      rfl
 
 theorem optField_H_minsec (m s ns : Nat) :
     optField 'H' (minText m ++ secText s ns) = (none, minText m ++ secText s ns) := by
@@ -270,13 +287,14 @@ theorem optField_H_all (h m s ns : Nat) :
     · have := optField_hit 'H' (by decide) h (minText m ++ secText s ns)
       simpa [List.append_assoc] using this
     · intro hb
-      simp [field, atoi_showNat h hb, Outcome.map]
+      exact field_hit h hourNs hb
   · rw [if_neg hh]
     refine ⟨none, ?_, ?_⟩
     · simpa using optField_H_minsec m s ns
     · intro _
       have : h = 0 := by omega
-      simp [field, this]
+      rw [this, Nat.zero_mul]
+      rfl
 
 def timeText (h m s ns : Nat) : List Char := hourText h ++ (minText m ++ secText s ns)
 
